@@ -24,14 +24,14 @@ import (
 
 // c01RoundPlan: what the adversary does in one round.  Validators are named by validator index.
 type c01RoundPlan struct {
-	fPropose    string           // faulty proposer: "new", "re<round>" (the block proposed in that round), "" = no proposal
-	noProposal  map[int]bool     // correct nodes that do not receive the proposal in time
-	pvFrom      map[int][]int    // node -> validators whose prevotes it receives before its timeout (nil = all correct ones)
-	fPrevote    map[int]string   // node -> what the faulty validators prevote towards it: "prop", "nil", "re<round>", "" = nothing
-	late        map[int]bool     // nodes that receive every remaining prevote of the round right after precommitting
-	pcFrom      map[int][]int    // node -> validators whose precommits it receives (nil = all correct ones)
-	fPrecommit  map[int]string   // node -> the faulty validators' precommit towards it
-	staleBefore map[int]bool     // nodes that receive everything held back so far, before the round starts
+	fPropose    string         // faulty proposer: "new", "re<round>" (the block proposed in that round), "" = no proposal
+	noProposal  map[int]bool   // correct nodes that do not receive the proposal in time
+	pvFrom      map[int][]int  // node -> validators whose prevotes it receives before its timeout (nil = all correct ones)
+	fPrevote    map[int]string // node -> what the faulty validators prevote towards it: "prop", "nil", "re<round>", "" = nothing
+	late        map[int]bool   // nodes that receive every remaining prevote of the round right after precommitting
+	pcFrom      map[int][]int  // node -> validators whose precommits it receives (nil = all correct ones)
+	fPrecommit  map[int]string // node -> the faulty validators' precommit towards it
+	staleBefore map[int]bool   // nodes that receive everything held back so far, before the round starts
 }
 
 type c01Rounds struct {
